@@ -179,7 +179,14 @@ func evaluate(r *vh.Run, c connCase, p *plan, v h1x.View, got []h1x.Received, se
 
 	// ---- origin side
 	byID := map[int][]*h1x.Msg{}
+	earlyAt := map[*h1x.Msg]bool{}
 	for _, g := range got {
+		if g.Early {
+			// answered from the head alone; the body was not (fully) read by the origin
+			earlyAt[g.Msg] = true
+			byID[targetID(g.Msg.Target)] = append(byID[targetID(g.Msg.Target)], g.Msg)
+			continue
+		}
 		if g.Msg.Outcome != h1x.StComplete {
 			add("request-framing", "origin", fmt.Sprintf("origin received a malformed request at %s: %s", g.Msg.Stage, g.Msg.Err))
 			continue
@@ -208,21 +215,38 @@ func evaluate(r *vh.Run, c connCase, p *plan, v h1x.View, got []h1x.Received, se
 				t = t[j:]
 			}
 		}
-		gp, gq := t, ""
+		gp, gq, gHasQ := t, "", false
 		if k := strings.IndexByte(t, '?'); k >= 0 {
-			gp, gq = t[:k], t[k+1:]
+			gp, gq, gHasQ = t[:k], t[k+1:], true
 		}
-		if h1x.PctDecode(gp) != h1x.PctDecode(q.Path) {
-			add("request-target", "path", fmt.Sprintf("request #%d: sent path %q, origin received %q", i, q.Path, gp))
+		// The path is compared byte for byte: every path the generator draws is
+		// a valid RFC 3986 path, and which characters are percent-encoded is
+		// part of a path's identity (%2F is not a segment separator; a server may
+		// distinguish "(" from %28). Decoding before comparing would hide both.
+		if gp != q.Path {
+			cls := "path-raw"
+			if h1x.PctDecode(gp) != h1x.PctDecode(q.Path) {
+				cls = "path"
+			}
+			add("request-target", cls, fmt.Sprintf("request #%d: sent path %q, origin received %q", i, q.Path, gp))
 		}
 		if gq != q.Query {
 			add("request-target", "query", fmt.Sprintf("request #%d: sent query %q, origin received %q", i, q.Query, gq))
+		} else if gHasQ != q.HasQuery {
+			add("request-target", "query-mark", fmt.Sprintf("request #%d: sent target %q (query component present=%v), origin received %q (present=%v)", i, q.Path+map[bool]string{true: "?", false: ""}[q.HasQuery], q.HasQuery, t, gHasQ))
 		}
 		want := append([]h1x.Header{{Name: "Host", Value: q.Authority}}, q.Headers...)
 		if w := compareHeaders(want, m); w != "" {
 			add("request-header", cls, fmt.Sprintf("request #%d: %s", i, w))
 		}
-		if w := bodyDiff(q.Body, m.Body); w != "" {
+		if earlyAt[m] {
+			// the origin chose not to wait for the body: only the part that had
+			// arrived with the head can be compared (it must be a prefix)
+			if len(m.Body) > len(q.Body) || !bytes.Equal(m.Body, q.Body[:len(m.Body)]) {
+				add("request-body", cls, fmt.Sprintf("request #%d (%s, %s): the %d body bytes that arrived with the head are not a prefix of the body sent", i, q.Method, q.Framing, len(m.Body)))
+			}
+			r.Count("early_answers_observed", 1)
+		} else if w := bodyDiff(q.Body, m.Body); w != "" {
 			add("request-body", cls, fmt.Sprintf("request #%d (%s, %s): %s", i, q.Method, q.Framing, w))
 		}
 	}
@@ -261,9 +285,15 @@ func evaluate(r *vh.Run, c connCase, p *plan, v h1x.View, got []h1x.Received, se
 			} else if rf == "none" {
 				rf = "bodiless"
 			}
-			r.Class(fmt.Sprintf("%s>%s|%s|%s|%s|close=%s|%s", q.Framing, rf, sizeBucket(sz), mode, pos, asker, tr))
+			qf := q.Framing
+			if q.Early != "" {
+				qf += "(answered-early," + q.Early + ")"
+			}
+			r.Class(fmt.Sprintf("%s>%s|%s|%s|%s|close=%s|%s", qf, rf, sizeBucket(sz), mode, pos, asker, tr))
 			r.Count("exchanges_verified", 1)
-			r.Count("request_body_bytes_compared", int64(len(q.Body)))
+			if q.Early == "" {
+				r.Count("request_body_bytes_compared", int64(len(q.Body)))
+			}
 			r.Count("response_body_bytes_compared", int64(len(s.Body)))
 			r.Count("header_values_compared", int64(len(q.Headers)+len(s.Headers)+1))
 		}
